@@ -2267,10 +2267,20 @@ impl Compiler {
                 // Jump to the finally block at the end of the catch block
                 self.push_op_without_span(Jump, &[]);
                 finally_jump_placeholders.push(self.push_offset_placeholder());
-            }
 
-            for placeholder in type_check_jump_placeholders {
-                self.update_offset_placeholder(placeholder)?;
+                for placeholder in type_check_jump_placeholders {
+                    self.update_offset_placeholder(placeholder)?;
+                }
+            } else if !type_check_jump_placeholders.is_empty() {
+                // A map pattern in the last catch block might not match the thrown value,
+                // in which case the error hasn't been caught and gets thrown again.
+                self.push_op_without_span(Jump, &[]);
+                finally_jump_placeholders.push(self.push_offset_placeholder());
+
+                for placeholder in type_check_jump_placeholders {
+                    self.update_offset_placeholder(placeholder)?;
+                }
+                self.push_op(Throw, &[catch_register]);
             }
 
             self.pop_span(); // catch block
